@@ -132,6 +132,7 @@ def scenarios(tier, seed):
 
 def run(tier, seed):
     rep = Report("C01", tier, seed)
+    rep.add_proof("FamilyOrder2All")
     rep.add_mc("MC_Tableau", tlc.model_check("MC_Tableau", "MC_Tableau.cfg"), note="order conditions of the EF/RK2/RK4 tableaux used by LadimTrace")
     scs = scenarios(tier, seed)
     traces = pmap("harness.e2e", "run_e2e", scs)
